@@ -15,12 +15,12 @@ Definition st_validate : N := 4%N.
 (* one call: raw argument registers, and RV raw-result | RT trap-class
    (1 div by zero, 2 integer overflow, 3 invalid conversion, 4 unreachable, 5 host panic, 0 other) *)
 Inductive irun := RV (z : Z) | RT (k : N).
-Definition obs : Type := (N * list Z * list ty * list (list Z * irun))%type.
+Definition obs : Type := (N * list Z * list imp * list (list Z * irun))%type.
 Definition case_t : Type := (func * obs)%type.
 
 Definition o_stage (o : obs) : N := fst (fst (fst o)).
 Definition o_code (o : obs) : list Z := snd (fst (fst o)).
-Definition o_imports (o : obs) : list ty := snd (fst o).
+Definition o_imports (o : obs) : list imp := snd (fst o).
 Definition o_runs (o : obs) : list (list Z * irun) := snd o.
 
 Notation fo := fo_exec.
@@ -80,7 +80,7 @@ Definition irun_eqb (a b : irun) : bool :=
 (* programs whose values the executable float instance can compute: no float '^' and no float '%' *)
 Fixpoint fpow_free (tys : list ty) (e : expr) : bool :=
   match e with
-  | ELit _ _ | ELitF _ _ | EVar _ => true
+  | ELit _ _ | ELitF _ _ | EVar _ | ESVar _ => true
   | EParen a | ENeg a | ENot a | ECast _ a => fpow_free tys a
   | EPow a b => fpow_free tys a && fpow_free tys b && match ety tys a with Some (TI _) => true | _ => false end
   | EArith op a b =>
@@ -90,8 +90,8 @@ Fixpoint fpow_free (tys : list ty) (e : expr) : bool :=
   end.
 Fixpoint fpow_free_s (tys : list ty) (s : stmt) : bool :=
   match s with
-  | SDecl _ _ e | SAssign _ e | SReturn e => fpow_free tys e
-  | SCompound i op e => fpow_free tys e && match op, nth_error tys i with AMod, Some (TF _) => false | _, _ => true end
+  | SDecl _ _ e | SAssign _ e | SReturn e | SStateDecl _ _ e | SSAssign _ e => fpow_free tys e
+  | SCompound i op e | SSCompound i op e => fpow_free tys e && match op, nth_error tys i with AMod, Some (TF _) => false | _, _ => true end
   | SIf c th el => fpow_free tys c && fpow_free_b tys th && fpow_free_e tys el
   | SFor c b => fpow_free tys c && fpow_free_b tys b
   | SLoop b => fpow_free_b tys b
@@ -110,6 +110,27 @@ with fpow_free_e (tys : list ty) (el : els) : bool :=
   end.
 Definition evaluable (f : func) : bool := fpow_free_b (f_tys f) (f_body f).
 
+(* ---- the calls of a case are ONE sequence of invocations on one instance: stateful variables
+   persist from one call to the next (for functions without stateful variables the calls are
+   independent) ---- *)
+Definition stateful (f : func) : bool := negb (match state_vars f with [] => true | _ => false end).
+
+Definition model_results (f : func) (w : wfunc) (o : obs) : list (option (wres fo)) :=
+  let calls := map (fun r => zipw warg (f_params f) (fst r)) (o_runs o) in
+  if stateful f then wasm_calls fo w calls else map (fun a => Some (wasm_run fo w a)) calls.
+
+Definition spec_results (f : func) (o : obs) : list (res (val fo)) :=
+  let calls := map (fun r => zipw sarg (f_params f) (fst r)) (o_runs o) in
+  if stateful f then spec_calls fo f (state_vars f) calls else map (spec_run fo f) calls.
+
+Definition flag_results (f : func) (o : obs) : list (list tag) :=
+  let calls := map (fun r => zipw sarg (f_params f) (fst r)) (o_runs o) in
+  map (fun fl => static_flags f ++ fl)
+      (if stateful f then dyn_flags_calls fo f (state_vars f) calls else map (dyn_flags fo f) calls).
+
+Fixpoint zip {A B} (a : list A) (b : list B) : list (A * B) :=
+  match a, b with x :: r, y :: s => (x, y) :: zip r s | _, _ => [] end.
+
 (* ---- model vs implementation (exact) ---- *)
 Definition mismatch (c : case_t) : bool :=
   let '(f, o) := c in
@@ -119,14 +140,17 @@ Definition mismatch (c : case_t) : bool :=
     | None => negb (N.eqb (o_stage o) st_compile)
     | Some w =>
         negb (list_eqb Z.eqb (enc_func w) (o_code o)) ||
-        negb (list_eqb ty_eqb (imports_l (w_body w)) (o_imports o)) ||
+        negb (list_eqb imp_eqb (imports_l (w_body w)) (o_imports o)) ||
         if validate w then
           negb (N.eqb (o_stage o) st_ok) ||
           (evaluable f &&
-           existsb (fun r => match wres_irun (wasm_run fo w (zipw warg (f_params f) (fst r))) with
-                             | Some m => negb (irun_eqb m (snd r))
-                             | None => true
-                             end) (o_runs o))
+           existsb (fun mr => match fst mr with
+                              | None => false          (* after a trap in a stateful sequence *)
+                              | Some m => match wres_irun m with
+                                          | Some x => negb (irun_eqb x (snd (snd mr)))
+                                          | None => true
+                                          end
+                              end) (zip (model_results f w o) (o_runs o)))
         else negb (N.eqb (o_stage o) st_validate)
     end.
 
@@ -139,8 +163,8 @@ Definition res_matches (t : ty) (v : val fo) (r : irun) : bool :=
   | _, _, _ => false
   end.
 
-Definition run_bad (f : func) (r : list Z * irun) : bool :=
-  match spec_run fo f (zipw sarg (f_params f) (fst r)) with
+Definition run_bad1 (f : func) (sr : res (val fo)) (r : list Z * irun) : bool :=
+  match sr with
   | Ok v => negb (res_matches (f_ret f) v (snd r))
   | RtErr => match snd r with RT _ => false | RV _ => true end
   | Unspec => false
@@ -149,29 +173,31 @@ Definition run_bad (f : func) (r : list Z * irun) : bool :=
 (* "every program the analyzer accepts compiles to a module that validates and instantiates" *)
 Definition stage_bad (o : obs) : bool := (3 <=? o_stage o)%N.
 
-Definition run_flags (f : func) (r : list Z * irun) : list tag :=
-  static_flags f ++ dyn_flags fo f (zipw sarg (f_params f) (fst r)).
-
 Definition is_nil {A} (l : list A) := match l with [] => true | _ => false end.
+
+(* per call: (violates the spec, signatures carried) *)
+Definition call_verdicts (f : func) (o : obs) : list (bool * list tag) :=
+  map (fun x => (run_bad1 f (fst (fst x)) (snd x), snd (fst x)))
+      (zip (zip (spec_results f o) (flag_results f o)) (o_runs o)).
 
 (* full strength *)
 Definition violates_full (c : case_t) : bool :=
   let '(f, o) := c in
-  stage_bad o || (N.eqb (o_stage o) st_ok && evaluable f && existsb (run_bad f) (o_runs o)).
+  stage_bad o || (N.eqb (o_stage o) st_ok && evaluable f && existsb fst (call_verdicts f o)).
 
 (* the same, not counting what carries the signature of a known divergence (Arc/Guard.v) *)
 Definition violates (c : case_t) : bool :=
   let '(f, o) := c in
   (stage_bad o && is_nil (static_flags f)) ||
   (N.eqb (o_stage o) st_ok && evaluable f &&
-   existsb (fun r => run_bad f r && is_nil (run_flags f r)) (o_runs o)).
+   existsb (fun v => fst v && is_nil (snd v)) (call_verdicts f o)).
 
 (* for each failing item of [violates_full] the signatures it carries ([] = unexplained) *)
 Definition explain (c : case_t) : list (list N) :=
   let '(f, o) := c in
   (if stage_bad o then [map tag_id (static_flags f)] else []) ++
   (if N.eqb (o_stage o) st_ok && evaluable f
-   then map (fun r => map tag_id (run_flags f r)) (filter (run_bad f) (o_runs o)) else []).
+   then map (fun v => map tag_id (snd v)) (filter fst (call_verdicts f o)) else []).
 
 (* coverage: calls compared with the spec semantics in total / outside every signature *)
 Definition run_counts (cs : list case_t) : N * N :=
@@ -179,7 +205,7 @@ Definition run_counts (cs : list case_t) : N * N :=
     let '(f, o) := c in
     if N.eqb (o_stage o) st_ok && evaluable f then
       (fst acc + N.of_nat (length (o_runs o)),
-       snd acc + N.of_nat (length (filter (fun r => is_nil (run_flags f r)) (o_runs o))))%N
+       snd acc + N.of_nat (length (filter (fun v => is_nil (snd v)) (call_verdicts f o))))%N
     else acc) cs (0, 0)%N.
 
 Definition mismatches (cs : list case_t) : list nat := find_idx mismatch cs.
@@ -200,8 +226,9 @@ Definition model_dump (c : case_t) :=
    match compile f with
    | None => None
    | Some w => Some (validate w, enc_func w, imports_l (w_body w),
-                     map (fun r => (fst r, wres_irun (wasm_run fo w (zipw warg (f_params f) (fst r))),
-                                    sres_dump (f_ret f) (spec_run fo f (zipw sarg (f_params f) (fst r))),
-                                    map tag_id (dyn_flags fo f (zipw sarg (f_params f) (fst r)))))
-                         (o_runs o))
+                     map (fun x => (fst (snd x),
+                                    match fst (fst (fst x)) with Some m => wres_irun m | None => None end,
+                                    sres_dump (f_ret f) (snd (fst (fst x))),
+                                    map tag_id (snd (fst x))))
+                         (zip (zip (zip (model_results f w o) (spec_results f o)) (flag_results f o)) (o_runs o)))
    end).
